@@ -61,10 +61,12 @@ func c08Check(c *Ctx, cs *c08Case, sample bool) {
 		cs.Mode = st.Note
 		b := spec.BuildStagedN(t0, st.points(), func() {
 			applyAligns(t0, st.PreAligns)
-			mw.Render()
+			o, _ := mw.Render()
+			c.Keep(o, "an earlier Render through the same wrapper")
 		})
 		applyAligns(t0, st.PreAligns)
-		mw.Render()
+		o, _ := mw.Render()
+		c.Keep(o, "an earlier Render through the same wrapper")
 		b.Finalize()
 		setAlignsExactly(t0, cs.Aligns) // final assignment in force; settings of the earlier one are withdrawn
 		c.Rec.Count("staged_cases(render, change, render again through the same wrapper)", 1)
